@@ -437,7 +437,13 @@ def encode_object_identifier_subidentifier(subidentifier):
 def decode_object_identifier(data, offset, end_offset):
     subidentifier, offset = decode_object_identifier_subidentifier(data,
                                                                    offset)
-    decoded = [subidentifier // 40, subidentifier % 40]
+
+    # The first two arcs are packed as 40 * X + Y, where X is 0, 1 or 2
+    # and Y is only limited to 0..39 for X in 0..1 (X.690 8.19.4).
+    if subidentifier < 80:
+        decoded = [subidentifier // 40, subidentifier % 40]
+    else:
+        decoded = [2, subidentifier - 80]
 
     while offset < end_offset:
         subidentifier, offset = decode_object_identifier_subidentifier(data,
